@@ -121,7 +121,25 @@ def graph_case(rng):
         edges = sorted(edges)
     order = list(range(n))
     rng.shuffle(order)
-    kind = rng.choice(["fb", "struct", "mixed", "array", "hetero"])
+    kind = rng.choice(["fb", "struct", "mixed", "array", "hetero", "renames"])
+    if kind == "renames":
+        # types that only rename one another, with and without an initial value (with one the declaration is a simple
+        # type declaration, without one an alias), used by variables of a program: resolving a variable's type follows
+        # the chain of names, whatever shape it has
+        succ = {i: [b for a, b in edges if a == i] for i in range(n)}
+        decls = []
+        for i in order:
+            init = rng.choice(["", " := 1", " := 2", " := TRUE", " := 1.5"])
+            if succ[i]:
+                decls.append("TYPE N%d : N%d%s; END_TYPE" % (i, rng.choice(succ[i]), init))
+            else:
+                decls.append("TYPE N%d : %s%s; END_TYPE" % (i, rng.choice(["INT", "BOOL", "REAL", "INT(0..5)", "(a%d, b%d)" % (i, i)]),
+                                                           init if rng.random() < 0.5 else ""))
+        vars_ = "".join(" v%d : N%d%s;" % (i, i, rng.choice(["", "", " := 1"])) for i in range(n) if rng.random() < 0.8)
+        decls.insert(rng.randrange(len(decls) + 1), "PROGRAM user VAR%s x : INT; END_VAR x := 1; END_PROGRAM" % vars_)
+        if rng.random() < 0.5:
+            decls.insert(rng.randrange(len(decls) + 1), "FUNCTION_BLOCK fbuser VAR_INPUT i0 : N0; END_VAR VAR_OUTPUT o : N%d; END_VAR END_FUNCTION_BLOCK" % (n - 1))
+        return "\n".join(decls)
     if kind == "hetero":
         return c07.realise_hetero(n, edges, order, c07.hetero_vector(rng, n, edges))
     return c07.realise(kind, n, edges, order)
@@ -130,6 +148,8 @@ def graph_case(rng):
 def gen_case(rng, i):
     if i % 50 == 49:
         return {"gen": "many", "text": hostile.many_decls_case(rng)}
+    if i % 50 in (24, 37):
+        return {"gen": "flat", "text": hostile.flat_case(rng)}
     k = i % 9
     if k == 8:
         return {"gen": "graph", "text": graph_case(rng)}
@@ -247,7 +267,8 @@ def cli_shard(shard, nshards, payload):
     try:
         for i in range(shard, n, nshards):
             rng = core.rng_for(seed, "c04cli", i)
-            if i % 2 == 0:
+            nflat = 2 * len(hostile.FLAT_KINDS)
+            if i >= nflat and i % 2 == 0:
                 data = bytes(rng.randrange(256) for _ in range(rng.choice([0, 1, 5, 100, 1500])))
                 gen = "rawbytes"
                 if rng.random() < 0.4:
@@ -256,11 +277,19 @@ def cli_shard(shard, nshards, payload):
                     data = rng.choice([b"\xef\xbb\xbf", b"\xff\xfe", b"\xfe\xff"]) + \
                         rng.choice([data, b"PROGRAM p (* caf\xe9 *) END_PROGRAM", b"\x00\xd8\x00", b"a", b"\xd8\x00\xd8\x00P\x00"])
                     gen = "rawbytes+bom"
+            elif i % 14 == 5 or i < 2 * len(hostile.FLAT_KINDS):
+                # every kind of flat-and-long input twice per run (the first 32 cases), and sampled afterwards
+                fk = i % len(hostile.FLAT_KINDS) if i < 2 * len(hostile.FLAT_KINDS) else rng.randrange(len(hostile.FLAT_KINDS))
+                n_ = rng.choice([3000, 5000, 8000, 12000]) if i < 2 * len(hostile.FLAT_KINDS) else None
+                if hostile.FLAT_KINDS[fk] == "invalid-characters" and payload.get("tier") == "quick":
+                    n_ = rng.choice([200, 500])      # the long form of this kind is the witness of a recorded finding (25 s per hit)
+                data = hostile.flat_case(rng, kind=fk, n=n_).encode("utf-8", "replace")
+                gen = "flat." + hostile.FLAT_KINDS[fk]
             else:
                 case = gen_case(rng, rng.randrange(1, 5))
                 data = case["text"].encode("utf-8", "replace")
                 gen = case["gen"]
-            if i % 5 == 3:
+            if i % 5 == 3 and i >= nflat:
                 project_case(res, rng, tmp, i)
                 continue
             path = os.path.join(tmp, "f%d.st" % i)
@@ -276,7 +305,8 @@ def cli_shard(shard, nshards, payload):
                 case = {"gen": gen, "cli": cmd, "hex": data[:4000].hex()}
                 if r["watchdog"]:
                     if (r.get("cpu_s") or 0) * 1e9 >= CPU_BUDGET_NS:
-                        res.violation("hang", "cli:cpu-budget", "more than %.0f s of CPU" % r["cpu_s"], case)
+                        res.violation("hang", "cli:cpu-budget" + (":%s:%s" % (cmd, gen) if gen.startswith("flat.") else ""),
+                                      "more than %.0f s of CPU" % r["cpu_s"], case)
                     else:
                         res.inconclusive.append({"why": "cli watchdog", "case": case})
                 elif r["rc"] is None or r["rc"] < 0 or r["rc"] == 101 or r["rc"] >= 128:
@@ -288,6 +318,8 @@ def cli_shard(shard, nshards, payload):
                 else:
                     res.distinct.add(core.key_of(cmd, data))
                     res.count("cli_rc:%s" % r["rc"])
+                    if gen.startswith("flat."):
+                        res.seen("flat_kinds_through_cli", gen)
             os.unlink(path)
     finally:
         import shutil
@@ -404,7 +436,7 @@ def run(tier, seed):
     n = 24000 if tier == "quick" else 1_000_000
     n_cli = 600 if tier == "quick" else 20000
     parts = core.run_sharded(shard, {"n": n, "seed": seed})
-    parts += core.run_sharded(cli_shard, {"n_cli": n_cli, "seed": seed})
+    parts += core.run_sharded(cli_shard, {"n_cli": n_cli, "seed": seed, "tier": tier})
     sanitizers = {"asan": "not run (quick tier)", "miri": "not run (quick tier)"}
     if tier == "thorough":
         ok, log = build_asan()
@@ -424,7 +456,7 @@ def run(tier, seed):
         "rule": "generated hostile inputs (random bytes, token soup over every token type, fixtures with 1-5 token "
                 "mutations, extreme literals at every literal site, nesting 1-12 incl. broken nests) run through "
                 "tokenize, parse, analyze, render, re-parse, project.semantic and project.tokenize in the probe, "
-                "plus raw byte files through ironplcc check/echo/tokenize; distinct = distinct input texts that "
+                "plus raw byte files and every kind of flat-and-long input (sums of thousands of terms, thousands of statements, branches, labels, values, arguments, one long string or comment, thousands of invalid characters; up to 64 KiB) through ironplcc check/echo/tokenize; distinct = distinct input texts that "
                 "completed every stage with a result",
         "assumptions": ["step budget %d parser element matches, CPU budget %d ns per case" % (STEP_BUDGET, CPU_BUDGET_NS),
                         "probe profile: opt-level 1 with overflow checks and debug assertions on"],
@@ -442,13 +474,36 @@ def witnesses():
     if fs:
         probe = core.Probe()
         probe.max_watchdogs = None
+        tmp = None
         for f in fs:
-            case = {"gen": "witness:" + f["id"], "text": f["witness"]["text"]}
+            w = f["witness"]
+            text = w["text"] if "text" in w else w["prefix"] + w["unit"] * w["times"] + w["suffix"]
+            case = {"gen": "witness:" + f["id"], "text": text}
             obs = probe.run({"op": "pipeline", "text": case["text"], "budget": STEP_BUDGET}, timeout=60.0)
             res.evaluations += 1
             res.count("witness")
             judge(res, obs, case, probe)
+            if w.get("cli"):
+                # ... and through the real binary, under the same CPU budget
+                tmp = tmp or core.worker_tmpdir("c04w")
+                path = os.path.join(tmp, "w.st")
+                open(path, "w").write(text)
+                r = core.run_cli([w["cli"], path], tmp, timeout=25.0)
+                res.evaluations += 1
+                res.count("witness-cli")
+                c2 = {"gen": w.get("gen", "witness"), "cli": w["cli"], "finding": f["id"], "witness": {k: v for k, v in w.items()}}
+                if r["watchdog"]:
+                    if (r.get("cpu_s") or 0) * 1e9 >= CPU_BUDGET_NS:
+                        res.violation("hang", "cli:cpu-budget:%s:%s" % (w["cli"], w.get("gen", "witness")),
+                                      "more than %.0f s of CPU" % r["cpu_s"], c2)
+                    else:
+                        res.inconclusive.append({"why": "cli watchdog", "case": c2})
+                elif r["rc"] is None or r["rc"] < 0 or r["rc"] == 101 or r["rc"] >= 128:
+                    res.violation("crash", "cli:rc=%s" % r["rc"], r["err"][-400:], c2)
         probe.close()
+        if tmp:
+            import shutil
+            shutil.rmtree(tmp, ignore_errors=True)
     return res
 
 
